@@ -78,9 +78,11 @@ fn next_backup_num(file: &Path) -> Result<u64> {
 }
 
 fn is_num_backup(base_file: &str, candidate: &Path) -> Option<u64> {
+    // Lossy, like filename(): a name that is not valid UTF-8 must
+    // still be recognised as a backup of itself.
     let cname = candidate
         .file_name()?
-        .to_str()?;
+        .to_string_lossy();
     if !cname.starts_with(base_file) {
         return None
     }
